@@ -98,7 +98,7 @@ void apply_thdm_defects(vm::ThdmPt& p, const std::vector<std::string>& d)
 
 void run_mssm_cpp(vt::Ev& ev, vt::Rng& rng, const std::vector<std::string>& d, bool force)
 {
-   vm::MssmPt p = vm::random_mssm(rng, 300, 2000, 3, 50);
+   vm::MssmPt p = vm::valid_mssm(rng, 300, 2000, 3, 50);
    double tbo = 0; bool tbs = false;
    apply_mssm_defects(p, d, tbo, tbs);
    CerrCapture cap;
@@ -118,7 +118,7 @@ void run_mssm_cpp(vt::Ev& ev, vt::Rng& rng, const std::vector<std::string>& d, b
 
 void run_mssm_c(vt::Ev& ev, vt::Rng& rng, const std::vector<std::string>& d)
 {
-   vm::MssmPt p = vm::random_mssm(rng, 300, 2000, 3, 50);
+   vm::MssmPt p = vm::valid_mssm(rng, 300, 2000, 3, 50);
    double tbo = 0; bool tbs = false;
    apply_mssm_defects(p, d, tbo, tbs);
    CerrCapture cap;
